@@ -29,3 +29,21 @@ package lazyproto
 //@   ensures  r == nil || drShallow(r)
 //@   noframe
 //@   loop 1: invariant flatOK(r) && closersOK(r)
+
+// clone: what the pool's New function hands out is a clean, well-shaped result.
+//@ func (r *DecodeResult) clone() (res *DecodeResult)
+//@   nilable
+//@   requires r == nil || len(r.flatTags) == len(r.flatData)
+//@   ensures  implies(r == nil, res == nil)
+//@   ensures  implies(r != nil, res != nil && len(res.flatTags) == len(res.flatData) && len(res.closers) == 0)
+//@   ensures  forall(i, 0, len(res.flatData), implies(r != nil, res.flatData[i] != nil && len(res.flatData[i].data) == 0))
+//@   loop 1: invariant len(res.flatData) == len(r.flatData) && gocv_fresh(res.flatData)
+//@   loop 1: invariant forall(j, 0, rangeindex+1, res.flatData[j] != nil && len(res.flatData[j].data) == 0)
+//@   loop 1: locals rangeindex int, res *DecodeResult
+
+// GetFieldData: no index error for any tag; a field is returned only with recorded data.
+//@ func (r *DecodeResult) GetFieldData(tag int) (fd *FieldData, err error)
+//@   nilable
+//@   requires r == nil || flatOK(r)
+//@   ensures  implies(err == nil, fd != nil && len(fd.data) > 0)
+//@   ensures  implies(err != nil, fd == nil)
